@@ -39,6 +39,39 @@ CLAIMS = {
     "C12": C("differential testing vs str::parse and a reference prefix scanner: exhaustive 8/16-bit values and short strings, boundary neighbourhoods, seeded proptest",
              "Every value of the 8/16-bit types in several spellings, all strings up to 4-5 symbols over {0,1,9,-,+,a,' ',non-ASCII digit} for all 12 integer types and bool, MIN/MAX +-12 neighbourhoods with extra digits/zeros/suffixes for all types (decimal-string arithmetic for 128-bit); whole-string and Parser prefix parsing incl. offsets and error position.",
              "DESIGN.md §3 C12", "harness/src/bin/c12.rs"),
+    "C01": C("generated-input search with post-condition oracles (sub-range / UTF-8 / char-boundary / valid scalar) + the same corpus under Miri as UB observer",
+             "A table of every safe public item that reaches an unsafe block (slice/str slicing, byte-pattern and str functions in all pattern kinds, split/chars/slice iterators, chr, CStr, maybe_uninit, manually_drop, ptr::nonnull, array/collect/from_iter/destructure macros, Parser) is driven with edge index sets (incl. usize::MAX), five element types (incl. ZST and Drop) and constructed UTF-8; every returned slice/str must lie inside its argument, be valid UTF-8 on char boundaries; unexpected panics and harness aborts caused by std's unsafe-precondition checks are violations; a compact corpus of the same calls runs under Miri.",
+             "DESIGN.md §3 C01", "harness/src/bin/c01.rs (+ Miri)"),
+    "C06": C("model-based history testing vs str::split family: exhaustive strings x delimiters, all front/back histories for char delimiters",
+             "All strings up to 7 chars over {a,b,é} x all &str delimiters up to 3 chars (incl. empty, overlapping) and char delimiters: split/rsplit/split_terminator/rsplit_terminator pieces compared by address with std step by step, remainder() after every step, rev() forms, and every front/back interleaving of split/rsplit for char delimiters.",
+             "DESIGN.md §3 C06", "harness/src/bin/c06.rs"),
+    "C10": C("differential testing of generated programs: typed chain grammar rendered as konst DSL and as the identical std chain, compared on enumerated inputs",
+             "A committed pairwise corpus (every adapter x every consumer) plus seeded random chains (depth <= 5, 14 sources, 13 adapters, 13 consumers, all closure forms, eval!/for_each!, and a const-context collect_const! batch) are compiled against /repo and run on all small inputs; disagreements are attributed to the listed known finding only when the chain has its structural signature and equals the source-reversed alternative model.",
+             "DESIGN.md §3 C10", "progs/gen_chain.py"),
+    "C11": C("model-based testing of builder histories + generated hostile-closure programs + Miri",
+             "map!/map_!/from_fn!/from_fn_! vs std for N in 0..=6 and three element types; all ArrayBuilder op sequences up to depth 6 against a model with a magic-stamped element type; 540+ generated programs with every kind of early exit inside the closure at every element, whose outcome must be compile error / panic / counted loop / left the macro / fully written array; thorough reruns both under Miri.",
+             "DESIGN.md §3 C11", "harness/src/bin/c11.rs, progs/gen_closure_exits.py"),
+    "C13": C("stateful (operation-history) testing of Parser against its own reported offsets: exhaustive depth 1-3 + seeded proptest histories",
+             "Every Parser method with 11 pattern arguments is applied in all sequences of depth 1-2 (rich set) and depth 3 (reduced set) to ~270 originals and three base offsets, plus random histories to depth 12: after every Ok step remainder() must be original[start-base..end-base] on char boundaries nested in the previous range, after every Err the error offset/direction must name the start or end of the parser it was called on.",
+             "DESIGN.md §3 C13/C14", "harness/src/bin/c13.rs"),
+    "C14": C("stateful differential testing of Parser operations against a std-string model, incl. whole split protocols",
+             "The same histories as C13, but asserting the model: Ok/Err, yielded value and new remainder equal what strip/trim/find/split_once/integer-prefix functions compute from the previous remainder; split/rsplit/split_terminator/rsplit_terminator protocols over all strings up to 6 symbols x 7 delimiters run to their final error and compared with str::split/rsplit.",
+             "DESIGN.md §3 C13/C14", "harness/src/bin/c13.rs --property C14"),
+    "C15": C("stateful testing with a drop ledger: exhaustive consumer/builder histories, generated destructure! programs, Miri",
+             "All ArrayConsumer op sequences (next/next_back/as_slice/swap/clone/drop/assert_is_empty) up to depth 5-6 and ArrayBuilder sequences over a ledger-tracked Drop type, map_!/from_fn_! with a closure panicking at every element, and 800+ generated destructure! programs (braced/tuple structs, tuples to 16, arrays with rest/..; packed, generic, ZST, nested fields; `_` positions) whose in-program ledger must show every id dropped exactly once, `_`-matched ids dropped right after the statement; thorough reruns under Miri.",
+             "DESIGN.md §3 C15", "harness/src/bin/c11.rs --property C15, progs/gen_destructure.py"),
+    "C17": C("generated compile-fail programs with minimally different controls; rustc verdicts as oracle",
+             "Nine guard families (660+ programs): each invalid invocation must be rejected by rustc and its control (offending element removed) must compile; each program is compiled alone against the konst rlib built from /repo. A failing control is a harness error (exit 2), never a violation.",
+             "DESIGN.md §3 C17", "progs/gen_reject.py"),
+    "C18": C("differential testing of generated parser_method! programs against a reference using the same literal tokens in expression position",
+             "600+ generated literal sets (all escape kinds, line continuations, raw strings, concat!, related alternatives) for the six forms, each run on every string up to 3 chars over the literals' alphabet + concatenations through two parser constructions; branch, remainder and offsets must equal the reference; literals that rustc accepts but the macro rejects are violations too.",
+             "DESIGN.md §3 C18", "progs/gen_parser_method.py"),
+    "C19": C("differential testing vs std Option/Result/cmp functions with call counters + generated rebind programs with rustc verdicts",
+             "Every option::/result:: macro in every argument form on both variants and boundary payloads with fallback call counts, try_!/try_opt! vs `?`, min/max families on keyed values with identity tags; try_rebind!/rebind_if_ok! for every arity 1..=6 and position kind (complete to arity 3) compiled alone (must compile) and compared with a hand-written match on Ok and Err inputs.",
+             "DESIGN.md §3 C19", "harness/src/bin/c19.rs, progs/gen_rebind.py"),
+    "C20": C("complete enumeration of CStr inputs vs core::ffi::CStr + generated const programs for the concat/join macros vs std",
+             "All byte strings up to length 7 over {0,'a',0xFF} and up to 5 over a UTF-8-relevant alphabet for the CStr constructors/views; 800+ generated const items for str_concat!/str_join!/string::from_iter!/slice_concat! (all argument forms, empty lists/pieces, multi-byte separators) compared with concat/join/collect at run time.",
+             "DESIGN.md §3 C20", "harness/src/bin/c20.rs, progs/gen_concat.py"),
     "C16": C("differential testing vs PartialEq/Ord on boundary-value tables: all pairs, all Option combinations, all triples for the order laws",
              "Every public eq_*/cmp_* function (14 scalar types, their slices, Option variants, NonZero, ranges, Ordering, str, &[&str], &[&[u8]]) and const_eq!/const_cmp!/const_eq_for!/const_cmp_for!/assertc_* forms over all pairs of boundary values and all pairs of slices of length <= 3, plus antisymmetry/transitivity over all triples.",
              "DESIGN.md §3 C16", "harness/src/bin/c16.rs"),
@@ -78,8 +111,10 @@ def main():
             "add_only": True,
         },
         "engines": [
-            {"name": "harness", "path": "/verif/harness", "serves_properties": sorted(CLAIMS),
-             "kind_free_text": "Rust binaries (one per property) using proptest TestRunner + exhaustive enumerators, std as differential oracle"},
+            {"name": "harness", "path": "/verif/harness", "serves_properties": ["C01", "C02", "C03", "C04", "C05", "C06", "C07", "C08", "C09", "C11", "C12", "C13", "C14", "C15", "C16", "C19", "C20"],
+             "kind_free_text": "Rust binaries (one per property) using proptest TestRunner + exhaustive enumerators, std or a small model as oracle; c01/c11 also run under Miri"},
+            {"name": "progs", "path": "/verif/progs", "serves_properties": ["C10", "C11", "C15", "C17", "C18", "C19", "C20"],
+             "kind_free_text": "python3 grammar-based program generators + driver: generated Rust is compiled from /repo's tree by cargo/rustc and executed (or must fail to compile); descriptors shrink by batch delta debugging"},
         ],
         "checks": checks,
         "notes": "All checks: exit 0 held / exit 1 + VIOLATION line / exit 2 infrastructure trouble. Known findings are in /verif/known_findings.txt.",
